@@ -270,7 +270,7 @@ func importFields(c *Ctx, m string) {
 			}
 		}
 	}
-	fl := map[string]int{"enterprise": 10, "wrkchain": 5, "beacon": 5, "stream": 2}
+	fl := map[string]int{"enterprise": 8, "wrkchain": 5, "beacon": 5, "stream": 2}
 	r.Floor("imported records/fields of "+m, n, fl[m])
 }
 
